@@ -20,3 +20,9 @@ for cls, n in CLSN.items():
             roots={'ADD': node_rx(n, '64', 'db') + r'add_to_nonfull\(', 'REMOVE': node_rx(n, '64', 'db') + r'remove\(unsigned char'}, stubs={'LEAF_DEL': LEAFDEL['64']},
             cfgs=CFG_NODE, thorough_cfgs=ALL_CFGS, unwind={1: 6, 2: 18, 3: 258, 4: 258}[cls], unwindset=({'ADD': 8} if cls == 3 else None), floor=10, timeout=900,
             under_contract=['basic_inode_%d<db, uint64_t>::%s' % (n, 'add_to_nonfull' if h == 'h_add' else 'remove')])
+KP = r'^unodb::detail::key_prefix<unodb::detail::basic_art_key<unsigned long>, unodb::detail::basic_inode_impl<unodb::detail::basic_art_policy<unsigned long, %s, unodb::db, .*::' % SPAN
+KPR = {'CUT': KP + r'cut\(unsigned char\)', 'PREPEND': KP + r'prepend\(', 'GSL': KP + r'get_shared_length\(unsigned long\) const', 'CTOR_LEN': KP + r'key_prefix\(unsigned int, ',
+       'SNAPSHOT': KP + r'get_snapshot\(\) const', 'SNAP_GSL': r'^unodb::detail::key_prefix_snapshot::get_shared_length\(unsigned long\) const', 'SNAP_LEN': r'^unodb::detail::key_prefix_snapshot::length\(\) const'}
+for h in ('h_cut', 'h_prepend', 'h_shared', 'h_ctor_len', 'h_snapshot'):
+    job('node.db64.prefix.%s' % h[2:], ['C01', 'C16'] + (['C02'] if h == 'h_snapshot' else []), 'u_db', 'proofs/node/prefix.c', entry=h, roots=KPR, cfgs=(BASE, DEBUG), floor=5, timeout=300,
+        under_contract=['key_prefix<db,uint64_t>::%s' % h[2:]], replay='replay/prefix.cpp')
